@@ -1,0 +1,24 @@
+//go:build verif
+
+package router
+
+import (
+	"context"
+	"crypto/tls"
+)
+
+// Add-only hooks for the C17 correspondence check: the real makeTlsConfig and the real router
+// (run/close) started in-process from a Config value.
+
+func VerifC17MakeTlsConfig(cfg *TlsConfig, requireCert bool) (*tls.Config, error) {
+	return makeTlsConfig(cfg, requireCert)
+}
+
+// VerifC17Run starts a router exactly as the command does (run) and returns its closer.
+func VerifC17Run(cfg *Config) (func(), error) {
+	r, err := run(context.Background(), cfg)
+	if err != nil {
+		return nil, err
+	}
+	return func() { r.close(nil) }, nil
+}
